@@ -21,6 +21,19 @@ def anchoredFile (relDir : String) (doc : KVs) : FileRes :=
   | .err _ => .ok doc true            -- ResolveRelativePaths failed (after the services / base checks)
   | .panic s => .okResolvePanic doc s
 
+/-- the same with the resolver's whole configuration (`$HOME` for `~/…`, the remote-resource test of the loader): the
+file-system entry of a document `doc` when `ResolveRelativePaths` runs with configuration `pc` (`pc.wd` = the file's
+directory).  `anchoredFile relDir doc = anchoredFileAt { wd := relDir, home := none } doc` (`anchoredFile_eq_at`). -/
+def anchoredFileAt (pc : CV.Paths.Cfg) (doc : KVs) : FileRes :=
+  match CV.Paths.resolve pc (.map doc) with
+  | .ok (.map d) => .ok d false
+  | .ok _ => .ok doc true
+  | .err _ => .ok doc true
+  | .panic s => .okResolvePanic doc s
+
+theorem anchoredFile_eq_at (relDir : String) (doc : KVs) :
+    anchoredFile relDir doc = anchoredFileAt { wd := relDir.toList, home := none } doc := rfl
+
 /-- a file system whose files are canonical documents, each anchored at its own directory -/
 def anchoredFS (files : List (String × String × KVs)) : FS :=
   files.map fun (ref, relDir, doc) => (ref, anchoredFile relDir doc)
